@@ -64,7 +64,7 @@ def events(ctx):
         yield record("reqid.unpack", {"octets": [hi >> 8, hi & 255, lo >> 8, lo & 255]})
     for _ in range(ctx.q(4000, 300000)):
         r = rnd_req(rng)
-        yield record("reqid.rt", {"r": r, "sfx": [rng.randrange(256)] * rng.randrange(3), "via": rng.choice(["ctor", "sph"])})
+        yield record("reqid.rt", {"r": r, "sfx": [rng.randrange(256)] * rng.randrange(3), "via": rng.choice(["ctor", "sph", "mutate"])})
         r2 = dict(r)
         if rng.random() < 0.7:
             f = rng.choice(list(r2))
